@@ -427,7 +427,12 @@ def merge_runs(data: ArrayLike, digits: Optional[Integer] = None):
         return data
     mask = np.zeros(len(data), dtype=bool)
     mask[0] = True
-    mask[1:] = np.abs(data[1:] - data[:-1]) > epsilon
+    if data.dtype.kind in "iub":
+        # integers and booleans are compared exactly as the
+        # difference can overflow for narrow or extreme integers
+        mask[1:] = data[1:] != data[:-1]
+    else:
+        mask[1:] = np.abs(data[1:] - data[:-1]) > epsilon
 
     return data[mask]
 
